@@ -778,8 +778,18 @@ def quantile(a, *args, **kwargs):
 
 
 @implements(np.nanpercentile)
-def nanpercentile(a, *args, **kwargs):
-    return np.nanpercentile._implementation(np.asarray(a), *args, **kwargs) * a.units
+def nanpercentile(a, q, axis=None, out=None, *args, **kwargs):
+    res = np.nanpercentile._implementation(
+        np.asarray(a),
+        q,
+        axis,
+        None if out is None else np.asarray(out),
+        *args,
+        **kwargs,
+    )
+    if getattr(out, "units", None) is not None:
+        out.units = a.units
+    return res * a.units
 
 
 @implements(np.nanquantile)
